@@ -518,6 +518,10 @@ pub fn prefilter_families() -> Vec<PFam> {
         pfam("packed-3x3", vec![b("ab"), b("cd"), b("ef")], false),
         pfam("packed-overlap", vec![b("abcd"), b("bc"), b("cdx"), b("dab")], false),
         pfam("packed-prefix", vec![b("ab"), b("abc"), b("bcd"), b("cda")], false),
+        pfam("packed-shadowed", vec![b("sam"), b("samwise"), b("frodo"), b("gandalf"), b("pippin")], false),
+        pfam("packed-shadowed-2", vec![b("ab"), b("abc"), b("cd"), b("ef"), b("gh"), b("cde")], false),
+        pfam("packed-mask4", vec![b("abcd"), b("wxyz"), b("mnop"), b("qrst"), b("efgh")], false),
+        pfam("packed-mask4-overlap", vec![b("abcdab"), b("cdabcd"), b("bcda"), b("dabc"), b("wxyz")], false),
         pfam("ci-start", vec![b("ab"), b("ac")], true),
         pfam("ci-start2", vec![b("ab"), b("Cd")], true),
         pfam("ci-rare", vec![b("ez"), b(" Z"), b("Tz")], true),
